@@ -1,28 +1,653 @@
 package sx
 
-import "go/token"
+import (
+	"os"
+	"fmt"
+	"go/token"
+	"go/types"
+	"runtime"
+	"sort"
+	"strings"
+	"sync"
+)
 
-// Scheduled (multi-goroutine) mode.  Not yet delivered: the sequential
-// executor handles channels and select for a single goroutine.
+// Bounded-schedule mode (DESIGN.md §4).
+//
+// Goroutines of the program under test are coroutines of the executor: each
+// one runs on a host goroutine of its own, but exactly one of them holds the
+// (implicit) token at any time, so execution stays sequential and — because
+// every scheduling choice is an ordinary recorded decision (chooseN) —
+// deterministic under replay.  A context switch can happen only immediately
+// before a *visible operation* (channel operation, select, mutex, condition
+// variable, wait group, once, atomic, go statement, timer operation) and when
+// a goroutine blocks or ends.  Switching away from a goroutine that could have
+// continued is a *preemption* and is bounded (MaxPreempt); switches at
+// blocking points are free.  Timers are fired by the environment: either only
+// when every goroutine is blocked (timers "idle", time passes only when
+// nothing else can happen) or additionally at any scheduling point (timers
+// "eager", costs nothing of the preemption budget but is bounded by the
+// number of firings per path).
+//
+// A state in which goroutine 0 (the harness) is blocked, no goroutine is
+// enabled and no timer can fire ends the path as *blocked* (deadlock).
+type gstate int
+
+const (
+	gRunnable gstate = iota
+	gBlockedChan
+	gBlockedPred
+	gDone
+)
+
 type goroutine struct {
-	id int
+	id     int
+	resume chan struct{}
+	state  gstate
+	pred   func() bool
+	what   string
+	depth  int
+	sel    *selectWait
+	name   string
 }
 
-type scheduler struct{}
+type timerObj struct {
+	id      int
+	c       *chanObj
+	armed   bool
+	ticker  bool
+	fn      value // AfterFunc
+	elem    types.Type
+	stopped bool
+	owner   *value
+}
 
-func (ex *Exec) hasParkedRecv(c *chanObj) bool { return false }
-func (ex *Exec) hasParkedSend(c *chanObj) bool { return false }
-func (ex *Exec) schedSend(c *chanObj, v value) { panic(engineError{"scheduled mode not built"}) }
-func (ex *Exec) schedRecv(c *chanObj) (value, bool) {
-	panic(engineError{"scheduled mode not built"})
+type scheduler struct {
+	ex          *Exec
+	gs          []*goroutine
+	cur         *goroutine
+	preempts    int
+	maxPreempt  int
+	maxG        int
+	fires       int
+	maxFires    int
+	eagerTimers bool
+	atomicPts   bool
+	timers      []*timerObj
+	abort       interface{}
+	dead        bool
+	hostWG      sync.WaitGroup
+	cond        map[*value][]*goroutine
+	wg          map[*value]int
+	once        map[*value]int
+	switches    int
 }
-func (ex *Exec) schedWakeAll(c *chanObj) {}
-func (ex *Exec) schedBlockOn(chans []*chanObj, what string) {
-	panic(engineError{"scheduled mode not built"})
+
+var schedTrace = os.Getenv("VERIF_SCHED_TRACE") != ""
+
+func (s *scheduler) tr(format string, a ...interface{}) {
+	if schedTrace {
+		fmt.Fprintf(os.Stderr, "  [sched g%d] "+format+"\n", append([]interface{}{s.cur.id}, a...)...)
+	}
 }
+
+func newScheduler(ex *Exec) *scheduler {
+	if schedTrace {
+		fmt.Fprintln(os.Stderr, "=== new path")
+	}
+	s := &scheduler{ex: ex, maxPreempt: 1, maxG: 4, maxFires: 3, atomicPts: true,
+		cond: map[*value][]*goroutine{}, wg: map[*value]int{}, once: map[*value]int{}}
+	if v, ok := ex.params["sched_preempt"]; ok {
+		s.maxPreempt = v
+	}
+	if v, ok := ex.params["sched_goroutines"]; ok {
+		s.maxG = v
+	}
+	if v, ok := ex.params["sched_timer_fires"]; ok {
+		s.maxFires = v
+	}
+	if v, ok := ex.params["sched_timers_eager"]; ok {
+		s.eagerTimers = v != 0
+	}
+	if v, ok := ex.params["sched_atomic_points"]; ok {
+		s.atomicPts = v != 0
+	}
+	g0 := &goroutine{id: 0, resume: make(chan struct{}, 1), name: "harness"}
+	s.gs = []*goroutine{g0}
+	s.cur = g0
+	ex.curG = g0
+	return s
+}
+
+// shutdown ends all host goroutines of the path (called by runPath).
+func (s *scheduler) shutdown() {
+	s.dead = true
+	for _, g := range s.gs[1:] {
+		select {
+		case g.resume <- struct{}{}:
+		default:
+		}
+	}
+	s.hostWG.Wait()
+}
+
+func (s *scheduler) enabled(g *goroutine) bool {
+	switch g.state {
+	case gRunnable:
+		return true
+	case gBlockedPred:
+		return g.pred()
+	}
+	return false
+}
+
+func (s *scheduler) othersEnabled() []*goroutine {
+	var r []*goroutine
+	for _, g := range s.gs {
+		if g != s.cur && s.enabled(g) {
+			r = append(r, g)
+		}
+	}
+	return r
+}
+
+func (s *scheduler) armedTimers() []*timerObj {
+	if s.fires >= s.maxFires {
+		return nil
+	}
+	var r []*timerObj
+	for _, t := range s.timers {
+		if t.armed {
+			r = append(r, t)
+		}
+	}
+	return r
+}
+
+// switchTo hands the token to next and waits until it comes back.
+func (s *scheduler) switchTo(next *goroutine) {
+	cur := s.cur
+	if next == cur {
+		return
+	}
+	ex := s.ex
+	cur.depth = ex.depth
+	s.cur = next
+	ex.curG = next
+	ex.depth = next.depth
+	s.switches++
+	s.tr("switch to g%d", next.id)
+	next.resume <- struct{}{}
+	<-cur.resume
+	s.resumed(cur)
+}
+
+// resumed runs in a goroutine that has just been handed the token.
+func (s *scheduler) resumed(g *goroutine) {
+	if g.id == 0 {
+		if s.abort != nil {
+			a := s.abort
+			s.abort = nil
+			panic(a)
+		}
+		return
+	}
+	if s.dead {
+		runtime.Goexit()
+	}
+}
+
+// abortPath is called on a non-harness host goroutine when the path ends
+// there (violation, engine error, crash of the program under test): the
+// reason is re-raised on the harness goroutine, which owns the path.
+func (s *scheduler) abortPath(r interface{}) {
+	if tp, ok := r.(targetPanic); ok {
+		// an uncaught panic in any goroutine crashes the program
+		r = pathEnd{PathPanic, "panic in goroutine: " + show(tp.v)}
+	}
+	s.abort = r
+	s.dead = true
+	g0 := s.gs[0]
+	s.cur = g0
+	s.ex.curG = g0
+	s.ex.depth = g0.depth
+	g0.resume <- struct{}{}
+}
+
+// point is a scheduling point before a visible operation of the current
+// goroutine: the current goroutine continues, or (within the preemption
+// budget) another enabled goroutine runs first, or (eager timers) a timer
+// fires first.
+func (s *scheduler) point(what string) {
+	for {
+		others := s.othersEnabled()
+		var timers []*timerObj
+		if s.eagerTimers {
+			timers = s.armedTimers()
+		}
+		if s.preempts >= s.maxPreempt {
+			others = nil
+		}
+		n := 1 + len(others) + len(timers)
+		if n == 1 {
+			return
+		}
+		k := s.ex.chooseN(n, "schedule before "+what)
+		switch {
+		case k == 0:
+			return
+		case k <= len(others):
+			s.preempts++
+			s.switchTo(others[k-1])
+			return
+		default:
+			s.fire(timers[k-1-len(others)])
+			// the current goroutine has not moved: offer the choice again
+		}
+	}
+}
+
+// blockCurrent parks the current goroutine (its state has been set by the
+// caller) and runs something else; returns when the goroutine is resumed.
+func (s *scheduler) blockCurrent() {
+	for {
+		if s.enabled(s.cur) {
+			// e.g. a timer fired below and completed our wait
+			s.cur.state = gRunnable
+			return
+		}
+		others := s.othersEnabled()
+		if len(others) > 0 {
+			var timers []*timerObj
+			if s.eagerTimers {
+				timers = s.armedTimers()
+			}
+			k := s.ex.chooseN(len(others)+len(timers), "schedule (current goroutine blocked)")
+			if k < len(others) {
+				s.switchTo(others[k])
+				if s.cur.state == gBlockedPred && !s.cur.pred() {
+					continue // lost the race for the condition again
+				}
+				s.cur.state = gRunnable
+				return
+			}
+			s.fire(timers[k-len(others)])
+			continue
+		}
+		timers := s.armedTimers()
+		if len(timers) == 0 {
+			s.deadlock()
+		}
+		s.fire(timers[s.ex.chooseN(len(timers), "timer to fire (all goroutines blocked)")])
+	}
+}
+
+func (s *scheduler) deadlock() {
+	for _, t := range s.timers {
+		if t.armed {
+			// only the bound on timer firings stops the program here: the
+			// schedule lies outside the explored bound, it is not a deadlock
+			panic(pathEnd{PathAssumed, "timer-firing bound reached"})
+		}
+	}
+	var parts []string
+	for _, g := range s.gs {
+		if g.state == gDone {
+			continue
+		}
+		parts = append(parts, fmt.Sprintf("g%d(%s): %s", g.id, g.name, g.what))
+	}
+	sort.Strings(parts)
+	s.tr("DEADLOCK %v", parts)
+	panic(pathEnd{PathBlocked, "deadlock — every goroutine is blocked and no timer can fire: " + strings.Join(parts, "; ")})
+}
+
+// exitCurrent ends the current (non-harness) goroutine.
+func (s *scheduler) exitCurrent() {
+	g := s.cur
+	g.state = gDone
+	g.what = "exited"
+	for {
+		others := s.othersEnabled()
+		if len(others) > 0 {
+			next := others[s.ex.chooseN(len(others), "schedule (goroutine exited)")]
+			g.depth = 0
+			s.cur = next
+			s.ex.curG = next
+			s.ex.depth = next.depth
+			next.resume <- struct{}{}
+			return
+		}
+		timers := s.armedTimers()
+		if len(timers) == 0 {
+			s.deadlock()
+		}
+		s.fire(timers[s.ex.chooseN(len(timers), "timer to fire (all goroutines blocked)")])
+	}
+}
+
+// ---------- goroutines ----------
+
 func (ex *Exec) schedSpawn(fn value, args []value, pos token.Pos) {
-	panic(engineError{"scheduled mode not built"})
+	s := ex.sched
+	live := 0
+	for _, g := range s.gs {
+		if g.state != gDone {
+			live++
+		}
+	}
+	if live >= s.maxG {
+		panic(pathEnd{PathUnwound, fmt.Sprintf("more than %d live goroutines (sched_goroutines)", s.maxG)})
+	}
+	g := &goroutine{id: len(s.gs), resume: make(chan struct{}, 1), name: fnName(fn)}
+	s.gs = append(s.gs, g)
+	s.hostWG.Add(1)
+	go func() {
+		defer s.hostWG.Done()
+		<-g.resume
+		if s.dead {
+			return
+		}
+		defer func() {
+			r := recover()
+			if r == nil {
+				return // normal end or Goexit
+			}
+			if s.dead {
+				return
+			}
+			s.abortPath(r)
+		}()
+		ex.call(nil, pos, fn, args)
+		s.exitCurrent()
+	}()
+	s.point("go statement")
 }
 
-func (ex *Exec) schedLock(c *value)     { panic(engineError{"scheduled mode not built"}) }
+func fnName(fn value) string {
+	switch f := fn.(type) {
+	case *closure:
+		return f.Fn.String()
+	case interface{ String() string }:
+		return f.String()
+	}
+	return "?"
+}
+
+// ---------- channels ----------
+
+func (ex *Exec) hasParkedRecv(c *chanObj) bool { return len(c.recvq) > 0 }
+func (ex *Exec) hasParkedSend(c *chanObj) bool { return len(c.sendq) > 0 }
+
+func removeWaiter(q []*waiter, w *waiter) []*waiter {
+	for i, x := range q {
+		if x == w {
+			return append(q[:i:i], q[i+1:]...)
+		}
+	}
+	return q
+}
+
+// complete finishes the parked operation w (one case of a parked goroutine).
+func (s *scheduler) complete(w *waiter, v value, ok bool, closedSend bool) {
+	sw := w.sel
+	sw.fired = true
+	sw.chosen = w.index
+	sw.val = v
+	sw.ok = ok
+	sw.closedSend = closedSend
+	for _, x := range sw.waiters {
+		if x.send {
+			x.c.sendq = removeWaiter(x.c.sendq, x)
+		} else {
+			x.c.recvq = removeWaiter(x.c.recvq, x)
+		}
+	}
+	w.g.state = gRunnable
+	w.g.what = ""
+	s.tr("complete op of g%d on chan #%d (case %d)", w.g.id, w.c.id, w.index)
+}
+
+type parkCase struct {
+	c    *chanObj
+	send bool
+	val  value
+}
+
+// park blocks the current goroutine on a set of channel operations.
+func (s *scheduler) park(cases []parkCase, what string) *selectWait {
+	g := s.cur
+	sw := &selectWait{}
+	for i, pc := range cases {
+		if pc.c == nil {
+			continue // nil channel: never ready
+		}
+		w := &waiter{g: g, c: pc.c, send: pc.send, val: pc.val, sel: sw, index: i}
+		sw.waiters = append(sw.waiters, w)
+		if pc.send {
+			pc.c.sendq = append(pc.c.sendq, w)
+		} else {
+			pc.c.recvq = append(pc.c.recvq, w)
+		}
+	}
+	g.state = gBlockedChan
+	g.sel = sw
+	g.what = what
+	s.tr("park: %s", what)
+	s.blockCurrent()
+	if !sw.fired {
+		panic(engineError{"goroutine resumed without a completed channel operation"})
+	}
+	g.sel = nil
+	return sw
+}
+
+func (ex *Exec) doSend(c *chanObj, v value) {
+	s := ex.sched
+	if c == nil {
+		s.park(nil, "send on nil channel")
+	}
+	if c.closed {
+		panic(targetPanic{ex.runtimeError("send on closed channel")})
+	}
+	if len(c.recvq) > 0 {
+		s.complete(c.recvq[0], v, true, false)
+		return
+	}
+	if len(c.buf) < c.cap {
+		c.buf = append(c.buf, v)
+		return
+	}
+	sw := s.park([]parkCase{{c, true, v}}, "send on channel")
+	if sw.closedSend {
+		panic(targetPanic{ex.runtimeError("send on closed channel")})
+	}
+}
+
+func (ex *Exec) doRecv(c *chanObj) (value, bool) {
+	s := ex.sched
+	if c == nil {
+		s.park(nil, "receive from nil channel")
+	}
+	if len(c.buf) > 0 {
+		v := c.buf[0]
+		c.buf = c.buf[1:]
+		if len(c.sendq) > 0 {
+			w := c.sendq[0]
+			c.buf = append(c.buf, w.val)
+			s.complete(w, nil, true, false)
+		}
+		return v, true
+	}
+	if len(c.sendq) > 0 {
+		w := c.sendq[0]
+		v := w.val
+		s.complete(w, nil, true, false)
+		return v, true
+	}
+	if c.closed {
+		return ex.zero(c.elem), false
+	}
+	sw := s.park([]parkCase{{c, false, nil}}, "receive from channel")
+	return sw.val, sw.ok
+}
+
+func (ex *Exec) schedSend(c *chanObj, v value) {
+	ex.sched.point("channel send")
+	ex.doSend(c, v)
+}
+
+func (ex *Exec) schedRecv(c *chanObj) (value, bool) {
+	ex.sched.point("channel receive")
+	return ex.doRecv(c)
+}
+
+// schedWakeAll: the channel has just been closed.
+func (ex *Exec) schedWakeAll(c *chanObj) {
+	s := ex.sched
+	for len(c.recvq) > 0 {
+		s.complete(c.recvq[0], ex.zero(c.elem), false, false)
+	}
+	for len(c.sendq) > 0 {
+		s.complete(c.sendq[0], nil, false, true)
+	}
+}
+
+// schedBlockOn is kept for the sequential select loop; scheduled mode uses
+// schedSelect instead.
+func (ex *Exec) schedBlockOn(chans []*chanObj, what string) {
+	panic(engineError{"schedBlockOn is not used in scheduled mode"})
+}
+
+// schedSelect implements select in scheduled mode.  Returns the chosen case
+// (-1 = default), and for receive cases the value and ok flag.
+func (ex *Exec) schedSelect(cases []parkCase, blocking bool) (int, value, bool) {
+	s := ex.sched
+	s.point("select")
+	var ready []int
+	for i, c := range cases {
+		if c.send {
+			if ex.canSend(c.c) {
+				ready = append(ready, i)
+			}
+		} else if ex.canRecv(c.c) {
+			ready = append(ready, i)
+		}
+	}
+	if len(ready) > 0 {
+		k := ready[0]
+		if len(ready) > 1 {
+			k = ready[ex.chooseN(len(ready), "select")]
+		}
+		if cases[k].send {
+			ex.doSend(cases[k].c, cases[k].val)
+			return k, nil, false
+		}
+		v, ok := ex.doRecv(cases[k].c)
+		return k, v, ok
+	}
+	if !blocking {
+		return -1, nil, false
+	}
+	sw := s.park(cases, "select")
+	if sw.closedSend {
+		panic(targetPanic{ex.runtimeError("send on closed channel")})
+	}
+	return sw.chosen, sw.val, sw.ok
+}
+
+// ---------- predicate waits: mutex, cond, wait group, once ----------
+
+func (s *scheduler) waitUntil(pred func() bool, what string) {
+	if pred() {
+		return
+	}
+	g := s.cur
+	g.state = gBlockedPred
+	g.pred = pred
+	g.what = what
+	s.blockCurrent()
+	g.pred = nil
+	g.what = ""
+}
+
+func (ex *Exec) schedLock(c *value) {
+	s := ex.sched
+	s.point("mutex lock")
+	s.waitUntil(func() bool { t := (*c).(*Term); return t.IsConst() && t.C == 0 }, "mutex lock")
+	*c = ex.tt.Const((*c).(*Term).W, 1)
+}
+
 func (ex *Exec) schedUnlocked(c *value) {}
+
+// ---------- timers ----------
+
+func (s *scheduler) newTimer(elem types.Type, armed bool, ticker bool, fn value) *timerObj {
+	t := &timerObj{id: len(s.timers), armed: armed, ticker: ticker, fn: fn, elem: elem}
+	if fn == nil {
+		t.c = s.ex.newChan(1, elem)
+	}
+	s.timers = append(s.timers, t)
+	return t
+}
+
+// fire delivers one expiry of t (the environment's move).
+func (s *scheduler) fire(t *timerObj) {
+	s.fires++
+	s.tr("fire timer %d", t.id)
+	if !t.ticker {
+		t.armed = false
+	}
+	if t.fn != nil {
+		// AfterFunc: runs the function in its own goroutine
+		cur := s.cur
+		_ = cur
+		s.ex.spawnNoPoint(t.fn)
+		return
+	}
+	c := t.c
+	v := s.ex.zero(t.elem)
+	if len(c.recvq) > 0 {
+		s.complete(c.recvq[0], v, true, false)
+		return
+	}
+	if len(c.buf) < c.cap {
+		c.buf = append(c.buf, v)
+	}
+}
+
+func (ex *Exec) spawnNoPoint(fn value) {
+	s := ex.sched
+	g := &goroutine{id: len(s.gs), resume: make(chan struct{}, 1), name: "timer func"}
+	s.gs = append(s.gs, g)
+	s.hostWG.Add(1)
+	go func() {
+		defer s.hostWG.Done()
+		<-g.resume
+		if s.dead {
+			return
+		}
+		defer func() {
+			r := recover()
+			if r == nil || s.dead {
+				return
+			}
+			s.abortPath(r)
+		}()
+		ex.call(nil, token.NoPos, fn, nil)
+		s.exitCurrent()
+	}()
+}
+
+// stopTimer implements Stop/Reset's "was it pending" with the Go 1.23+
+// synchronous timer-channel semantics: after it returns no stale value can be
+// received, and an expired-but-unreceived timer counts as still pending.
+func (s *scheduler) stopTimer(t *timerObj) bool {
+	s.tr("stop/reset timer %d armed=%v buffered=%d", t.id, t.armed, func() int { if t.c == nil { return 0 }; return len(t.c.buf) }())
+	pending := t.armed
+	t.armed = false
+	if t.c != nil && len(t.c.buf) > 0 {
+		t.c.buf = nil
+		pending = true
+	}
+	return pending
+}
